@@ -15,7 +15,7 @@ VARIANTS = [
          [(UN, "                    qind.append(val.resolve_qubit()[1])", "                    pos = val.alias_index\n                    qind.append(pos)")],
          ("C06.1", "emulator.unitary:raw-alias-index"), ("C06",)),
     fire("c06-mapfiller-recomputes-slice",
-         [(FM, "        reg, index = qubit.resolve_qubit()\n        return reg[index]", "        src = qubit.alias_from\n        if src.alias_slice is not None:\n            return src.alias_from[(src.alias_slice.start or 0) + qubit.alias_index * (src.alias_slice.step or 1)]\n        reg, index = qubit.resolve_qubit()\n        return reg[index]")],
+         [(FM, "        reg, index = qubit.resolve_qubit()\n        if reg.name in self.shadowed:", "        src = qubit.alias_from\n        if src.alias_slice is not None:\n            return src.alias_from[(src.alias_slice.start or 0) + qubit.alias_index * (src.alias_slice.step or 1)]\n        reg, index = qubit.resolve_qubit()\n        if reg.name in self.shadowed:")],
          ("C06.3", "MapFiller.visit_NamedQubit:slice-arithmetic"), ("C06",)),
     fire("c06-misspelt-attribute",
          [(FM, "        if reg.fundamental:", "        if reg.is_fundamental:")],
